@@ -27,7 +27,9 @@ type c14Params struct {
 
 type c14Match struct{ T0, Q0, Mism int }
 
-func c14Filter(target, query []byte, p c14Params, dir string) ([]filter.Hit, error) {
+// c14Filter runs the filter. If prior is non-nil the same Filter value is first run on prior (its hits are
+// discarded), the way pals.Align reuses one filter for the forward and the complement-strand search.
+func c14Filter(target, query []byte, p c14Params, dir string, prior []byte) ([]filter.Hit, error) {
 	ts := linear.NewSeq("t", alphabet.BytesToLetters(append([]byte(nil), target...)), alphabet.DNA)
 	qs := ts
 	if !p.Self {
@@ -44,6 +46,21 @@ func c14Filter(target, query []byte, p c14Params, dir string) ([]filter.Hit, err
 	}
 	defer m.CleanUp()
 	f := filter.New(ki, &filter.Params{WordSize: p.K, MinMatch: p.N, MaxError: p.E, TubeOffset: p.Offset})
+	if prior != nil && !p.Self {
+		ps := linear.NewSeq("prior", alphabet.BytesToLetters(append([]byte(nil), prior...)), alphabet.DNA)
+		if err := f.Filter(ps, false, false, m); err != nil {
+			return nil, fmt.Errorf("Filter (first use): %v", err)
+		}
+		for {
+			var h filter.Hit
+			if err := m.Pull(&h); err != nil {
+				break
+			}
+		}
+		if err := m.Clear(); err != nil {
+			return nil, fmt.Errorf("Clear between uses: %v", err)
+		}
+	}
 	if err := f.Filter(qs, p.Self, false, m); err != nil {
 		return nil, fmt.Errorf("Filter: %v", err)
 	}
@@ -151,9 +168,9 @@ func init() {
 		Case:        c14Case,
 		MinDistinct: func(t string) int { return 300 },
 		Floors: func(string) map[string]int64 {
-			return map[string]int64{"pairs": 800, "epsilon_matches_checked": 12000, "matches_at_target_end": 300, "matches_at_query_end": 300, "matches_with_errors": 3000, "self_comparison_pairs": 100, "diagonal_residues_covered": 20, "hits_reported": 1000, "ring_stress_pairs": 150}
+			return map[string]int64{"pairs": 800, "epsilon_matches_checked": 12000, "matches_at_target_end": 300, "matches_at_query_end": 300, "matches_with_errors": 3000, "self_comparison_pairs": 100, "diagonal_residues_covered": 20, "hits_reported": 1000, "ring_stress_pairs": 150, "filter_reused_for_second_query": 150}
 		},
-		Assumptions: []string{"sequences contain only A,C,G,T (the tube-recycling tick counts visited k-mer positions)", "epsilon-match = two length-n windows differing by at most e substitutions (no indels)", "complement-strand filtering is not exercised"},
+		Assumptions: []string{"sequences contain only A,C,G,T (the tube-recycling tick counts visited k-mer positions)", "epsilon-match = two length-n windows differing by at most e substitutions (no indels)", "complement-strand filtering is not exercised", "a Filter value may be reused for a second query after the sorter has been cleared (as pals.Align does)"},
 	})
 }
 
@@ -276,7 +293,17 @@ func c14Case(r *obs.Run, i int) {
 				err = fmt.Errorf("panic: %v", e)
 			}
 		}()
-		hits, err = c14Filter(T, Q, p, scratch)
+		var prior []byte
+		if idx%3 == 1 && !p.Self {
+			// a previous query of the same length sharing material with this one, so that tubes are left partly filled
+			prior = append([]byte(nil), Q...)
+			for k := 0; k < len(prior)/8+1; k++ {
+				prior[rng.Intn(len(prior))] = "ACGT"[rng.Intn(4)]
+			}
+			copy(prior[rng.Intn(len(prior)/2+1):], c14Rand(rng, len(prior)/3))
+			r.Count("filter_reused_for_second_query", 1)
+		}
+		hits, err = c14Filter(T, Q, p, scratch, prior)
 	}()
 	if err != nil {
 		r.Violate("filter-error", fmt.Sprintf("params %+v tlen=%d qlen=%d: %v", p, tl, ql, err), w)
